@@ -36,8 +36,8 @@ CHECKS = {
     ),
     "C09": dict(
         engine="CreatePipeline",
-        technique="TLC model checking (safety, deadlock, liveness) of spec/CreatePipeline.tla over all scenario classes and schedules, with five deviation configs; every scenario class instantiated through the input and replayed on the real Catalog.from_dataframe running on a deterministic fake multiprocessing runtime (random and depth-first-exhaustive schedules); C09 clauses evaluated on the real outcome and compared with TLC's terminal states",
-        text="CreatePipeline.tla models sequential and multiprocessing catalog creation step by step (reader faults at any chunk, pool tasks putting parts on the queue, writer process init/get/finalise, context-manager exits, join, load) for every combination of length, chunk size, 1-3 workers, pre-existing path (absent, catalog, foreign directory, file, missing parent), overwrite flag, fault chunk and empty centre; TLC proves FailStop, no hang (deadlock + liveness), UntouchedWithoutOverwrite, OnlyCatalogsDeleted, NoOpenableDirAfterFailure and ExactOnSuccess for the design and reproduces each defect of the code as found from a deviation flag. Each scenario class is run on the real library with faults injected through the input (NaN/inf cells, patch ids out of range, missing column, centre without objects) under several schedules of the fake multiprocessing runtime (all schedules for the smallest scenarios); exception / exact deadlock / returned records, a byte-level snapshot of the path before and after, and what Catalog(path) opens afterwards decide the clauses.",
+        technique="TLC model checking (safety, deadlock, liveness) of spec/CreatePipeline.tla over all scenario classes and schedules, with five deviation configs; every scenario class instantiated through the input and replayed on the real Catalog.from_dataframe running on a deterministic fake multiprocessing runtime (random and depth-first-exhaustive schedules); C09 clauses evaluated on the real outcome and compared with TLC's terminal states; the event log of every run (queue puts/gets with record ids, process spawn/terminate/join/exit codes, pool.map calls and task failures, terminal state) validated step by step by TLC against spec/CreatePipelineTrace.tla",
+        text="CreatePipeline.tla models sequential and multiprocessing catalog creation step by step (reader faults at any chunk, pool tasks putting parts on the queue, writer process init/get/finalise, context-manager exits, join, load) for every combination of length, chunk size, 1-3 workers, pre-existing path (absent, catalog, foreign directory, file, missing parent), overwrite flag, fault chunk, fault location (reader, pool worker, writer process) and empty centre; TLC proves FailStop, no hang (deadlock + liveness), UntouchedWithoutOverwrite, OnlyCatalogsDeleted, NoOpenableDirAfterFailure and ExactOnSuccess for the design and reproduces each defect of the code as found from a deviation flag. Each scenario class is run on the real library with faults injected through the input (NaN/inf cells, patch ids out of range, missing column, centre without objects) or, for faults inside a pool worker / the writer process, by making split_into_patches / CatalogWriter.process_patches raise at the marked record, under several schedules of the fake multiprocessing runtime (all schedules for the smallest scenarios); exception / exact deadlock / returned records, a byte-level snapshot of the path before and after, and what Catalog(path) opens afterwards decide the clauses. In the other direction the runtime's event log of each of these runs is checked by TLC against CreatePipelineTrace.tla (every put must be a whole part of the current chunk, every get the queue head, exit codes and the terminal state must be the spec's); corrupted copies (a record dropped from a part, a get removed, outcome flipped) must be rejected.",
         note="The fake multiprocessing primitives (Pool.map tasks as cooperative threads, Manager().Queue, Process with fork-copy and terminate) stand in for real processes; the repaired life cycle was additionally exercised once with real processes. A hang is an exact deadlock of the runtime, never a timeout.",
         ref="DESIGN.md 3.3, 4 C09",
     ),
